@@ -304,122 +304,175 @@ string HandleParse(const vector<string> &toks) {
   return out.str();
 }
 
-string Handle(const string &payload) {
-  vector<string> toks = vh::split(payload);
-  if (!toks.empty() && toks[0] == "P") return HandleParse(toks);
-  for (size_t t = 0; t < toks.size(); t++)
-    if (toks[t] == "2") return HandleTwo(toks);
-  Ctx ctx;
-  g_ctx = &ctx;
+// One real RpcChannel on one end of a socketpair with everything that belongs to it; the harness is the
+// peer.  Several of these live side by side in multi-channel mode.
+struct Endpoint {
   ola::ExportMap export_map;
   Service service;
   ola::io::UnixSocket sock;
-  if (!sock.Init()) return "harness-error=socketpair";
-  ola::io::UnixSocket *peer = sock.OppositeEnd();
-  std::auto_ptr<ola::io::UnixSocket> peer_holder(peer);
-  int pfd = peer->ReadDescriptor();
-  int cfd = sock.ReadDescriptor();
+  ola::io::UnixSocket *peer;
+  int pfd, cfd;
   Caller caller;
   string pending_out;   // bytes the channel sent that do not form a whole frame yet
+  bool jam;
+  unsigned handler_runs;
+  RpcChannel *channel;
+
+  static void OnClose(Endpoint *self, ola::rpc::RpcSession*) { self->handler_runs++; }
+
+  Endpoint(bool no_service, bool async)
+      : peer(NULL), pfd(-1), cfd(-1), jam(false), handler_runs(0), channel(NULL) {
+    service.async = async;
+    if (!sock.Init()) return;
+    peer = sock.OppositeEnd();
+    pfd = peer->ReadDescriptor();
+    cfd = sock.ReadDescriptor();
+    channel = new RpcChannel(no_service ? NULL : &service, &sock, &export_map);
+    channel->SetChannelCloseHandler(ola::NewSingleCallback(&Endpoint::OnClose, this));
+  }
+  ~Endpoint() {
+    delete channel;
+    delete peer;
+  }
+  bool StillOpen() { return sock.ValidReadDescriptor(); }
+
+  // returns false for an unknown token; `emit` says whether the op produces an output record
+  bool Apply(const string &tok, bool *emit, std::ostringstream *out) {
+    *emit = false;
+    char c = tok[0];
+    string rest = tok.substr(1);
+    if (c == 'z') {
+      // fill the channel's send direction so that every later Send() fails; stop reading our end
+      char junk[4096];
+      memset(junk, 0, sizeof(junk));
+      while (write(cfd, junk, sizeof(junk)) > 0) {}
+      while (write(cfd, junk, 1) > 0) {}
+      jam = true;
+      return true;
+    }
+    if (c == 'q') {
+      channel->m_sequence.m_sequence_number = static_cast<uint32_t>(vh::num(rest));
+      return true;
+    }
+    if (c == 'w') {
+      // bytes arrive but the poller has not run yet
+      vector<uint8_t> bytes = vh::unhex(rest);
+      if (!bytes.empty() && write(pfd, bytes.data(), bytes.size()) != static_cast<ssize_t>(bytes.size()))
+        return false;
+      return true;
+    }
+    if (c == 'p') {
+      // the peer goes away: what it wrote stays readable, every later write to it fails
+      peer->Close();
+      jam = true;
+      return true;
+    }
+    if (c == 'c') {
+      vector<uint8_t> bytes = vh::unhex(rest);
+      size_t off = 0;
+      while (off < bytes.size() && sock.ValidReadDescriptor() && peer->ValidReadDescriptor()) {
+        ssize_t w = write(pfd, bytes.data() + off, bytes.size() - off);
+        if (w > 0) off += w;
+        else if (w < 0 && errno != EAGAIN && errno != EINTR) break;
+        int before = sock.ValidReadDescriptor() ? sock.DataRemaining() : 0;
+        Drain(channel, &sock);
+        if (w <= 0 && sock.ValidReadDescriptor() && sock.DataRemaining() == before) break;  // stuck
+      }
+      Drain(channel, &sock);
+    } else if (c == 'm') {
+      if (!caller.Do(channel, rest)) return false;
+    } else if (c == 'k') {
+      service.Complete(vh::num(rest.substr(0, rest.size() - 1)), rest[rest.size() - 1] == 'F');
+    } else {
+      return false;
+    }
+    *emit = true;
+    // what the channel wrote to us
+    std::ostringstream sent;
+    if (!jam) {
+      char buf[65536];
+      ssize_t n;
+      while ((n = read(pfd, buf, sizeof(buf))) > 0) pending_out.append(buf, n);
+      while (pending_out.size() >= 4) {
+        uint32_t header;
+        memcpy(&header, pending_out.data(), 4);
+        unsigned size = header & 0x0fffffff;
+        if (pending_out.size() < 4 + size) break;
+        RpcMessage m;
+        if (!m.ParseFromArray(pending_out.data() + 4, size)) {
+          sent << "|Sunparsable";
+        } else {
+          sent << "|S" << m.type() << ":" << m.id() << ":" << vh::hex(m.name()) << ":" << vh::hex(m.buffer());
+          if ((header >> 28) != 1) sent << "!version";
+        }
+        pending_out.erase(0, 4 + size);
+      }
+    }
+    *out << "x" << (sock.ValidReadDescriptor() ? 0 : 1) << (channel->m_descriptor ? 0 : 1)
+         << Counters(&export_map) << g_ctx->done.str() << sent.str() << g_ctx->svc.str() << "|H"
+         << handler_runs;
+    g_ctx->done.str("");
+    g_ctx->svc.str("");
+    return true;
+  }
+  string Internal() {
+    std::ostringstream o;
+    o << "e" << channel->m_expected_size << "c" << channel->m_current_size
+      << "b" << channel->m_buffer_size << "a"
+      << (channel->m_buffer ? __sanitizer_get_allocated_size(channel->m_buffer) : 0);
+    return o.str();
+  }
+};
+
+string Handle(const string &payload) {
+  vector<string> toks = vh::split(payload);
+  if (!toks.empty() && toks[0] == "P") return HandleParse(toks);
+  bool no_service = false, async = false, oversize_script = false;
+  unsigned nchan = 1;
+  for (size_t t = 0; t < toks.size(); t++) {
+    if (toks[t] == "2") return HandleTwo(toks);
+    if (toks[t] == "N") no_service = true;
+    if (toks[t] == "A") async = true;
+    if (toks[t] == "X") oversize_script = true;
+    if (toks[t].size() > 1 && toks[t][0] == 'M') nchan = vh::num(toks[t].substr(1));   // multi-channel mode
+  }
+  if (nchan < 1 || nchan > 16) return "harness-error=channels";
+  Ctx ctx;
+  g_ctx = &ctx;
   std::ostringstream out;
-  bool jam = false;
-  bool oversize_script = false;   // the stream contains a right-version header announcing more than 1 MB
   bool still_open = false;
   {
-    bool no_service = false;
-    for (size_t t = 0; t < toks.size(); t++) if (toks[t] == "N") no_service = true;
-    RpcChannel channel(no_service ? NULL : &service, &sock, &export_map);
-    channel.SetChannelCloseHandler(ola::NewSingleCallback(&OnChannelCloseA));
-    unsigned idx = 0;
+    // all channels live side by side for the whole script
+    std::vector<Endpoint*> eps;
+    for (unsigned i = 0; i < nchan; i++) {
+      eps.push_back(new Endpoint(no_service, async));
+      if (!eps.back()->channel) return "harness-error=socketpair";
+    }
+    unsigned cur = 0, idx = 0;
     for (size_t t = 0; t < toks.size(); t++) {
       const string &tok = toks[t];
       if (tok.empty()) continue;
       char c = tok[0];
-      string rest = tok.substr(1);
-      if (c == '@' || c == 'T' || c == 'Q') continue;
-      if (c == 'X') { oversize_script = true; continue; }
-      if (c == 'N') continue;
-      if (c == 'A') { service.async = true; continue; }
-      if (c == 'z') {
-        // fill the channel's send direction so that every later Send() fails; stop reading our end
-        char junk[4096];
-        memset(junk, 0, sizeof(junk));
-        while (write(cfd, junk, sizeof(junk)) > 0) {}
-        while (write(cfd, junk, 1) > 0) {}
-        jam = true;
+      if (c == '@' || c == 'T' || c == 'Q' || c == 'X' || c == 'N' || c == 'A' || c == 'M') continue;
+      if (c == 'i') {   // the following ops belong to channel <k>
+        cur = vh::num(tok.substr(1));
+        if (cur >= nchan) return "harness-error=channel-index";
         continue;
       }
-      if (c == 'q') {
-        channel.m_sequence.m_sequence_number = static_cast<uint32_t>(vh::num(rest));
-        continue;
-      }
-      if (c == 'w') {
-        // bytes arrive but the poller has not run yet
-        vector<uint8_t> bytes = vh::unhex(rest);
-        if (!bytes.empty() && write(pfd, bytes.data(), bytes.size()) != static_cast<ssize_t>(bytes.size()))
-          return "harness-error=write";
-        continue;
-      }
-      if (c == 'p') {
-        // the peer goes away: what it wrote stays readable, every later write to it fails
-        peer->Close();
-        jam = true;
-        continue;
-      }
-      if (c == 'c') {
-        vector<uint8_t> bytes = vh::unhex(rest);
-        size_t off = 0;
-        while (off < bytes.size() && sock.ValidReadDescriptor() && peer->ValidReadDescriptor()) {
-          ssize_t w = write(pfd, bytes.data() + off, bytes.size() - off);
-          if (w > 0) off += w;
-          else if (w < 0 && errno != EAGAIN && errno != EINTR) break;
-          int before = sock.ValidReadDescriptor() ? sock.DataRemaining() : 0;
-          Drain(&channel, &sock);
-          if (w <= 0 && sock.ValidReadDescriptor() && sock.DataRemaining() == before) break;  // stuck
-        }
-        Drain(&channel, &sock);
-      } else if (c == 'm') {
-        if (!caller.Do(&channel, rest)) return "harness-error=call";
-      } else if (c == 'k') {
-        service.Complete(vh::num(rest.substr(0, rest.size() - 1)), rest[rest.size() - 1] == 'F');
-      } else {
-        return "harness-error=token";
-      }
-      // what the channel wrote to us
-      std::ostringstream sent;
-      if (!jam) {
-        char buf[65536];
-        ssize_t n;
-        while ((n = read(pfd, buf, sizeof(buf))) > 0) pending_out.append(buf, n);
-        while (pending_out.size() >= 4) {
-          uint32_t header;
-          memcpy(&header, pending_out.data(), 4);
-          unsigned size = header & 0x0fffffff;
-          if (pending_out.size() < 4 + size) break;
-          RpcMessage m;
-          if (!m.ParseFromArray(pending_out.data() + 4, size)) {
-            sent << "|Sunparsable";
-          } else {
-            sent << "|S" << m.type() << ":" << m.id() << ":" << vh::hex(m.name()) << ":" << vh::hex(m.buffer());
-            if ((header >> 28) != 1) sent << "!version";
-          }
-          pending_out.erase(0, 4 + size);
-        }
-      }
-      out << "o" << idx << "=x" << (sock.ValidReadDescriptor() ? 0 : 1) << (channel.m_descriptor ? 0 : 1)
-          << Counters(&export_map) << ctx.done.str() << sent.str() << ctx.svc.str() << "|H"
-          << ctx.handler_runs[0] << ";";
-      ctx.done.str("");
-      ctx.svc.str("");
-      out << "i" << idx << "=e" << channel.m_expected_size << "c" << channel.m_current_size
-          << "b" << channel.m_buffer_size << "a"
-          << (channel.m_buffer ? __sanitizer_get_allocated_size(channel.m_buffer) : 0) << ";";
+      bool emit = false;
+      std::ostringstream rec;
+      if (!eps[cur]->Apply(tok, &emit, &rec)) return "harness-error=token";
+      if (!emit) continue;
+      out << "o" << idx << "=";
+      if (nchan > 1) out << "#" << cur << "#";
+      out << rec.str() << ";i" << idx << "=" << eps[cur]->Internal() << ";";
       idx++;
     }
-    still_open = sock.ValidReadDescriptor();
+    still_open = eps[0]->StillOpen();
+    for (size_t i = 0; i < eps.size(); i++) delete eps[i];
   }
   // needs no model: after such a header the channel must have been closed
-  out << "oversize_accepted=" << (oversize_script && still_open ? 1 : 0) << ";";
+  out << "oversize_accepted=" << (nchan == 1 && oversize_script && still_open ? 1 : 0) << ";";
   out << "hazard=none";
   g_ctx = NULL;
   return out.str();
